@@ -141,8 +141,8 @@ func flight1Generate(
 		extensions = append(extensions, &extension12.ExtendedMasterSecret{})
 	}
 
-	if len(cfg.ServerName) > 0 {
-		extensions = append(extensions, &extension.ServerNameOffer{ServerName: cfg.ServerName})
+	if serverName := cfg.ServerNameIndication(); len(serverName) > 0 {
+		extensions = append(extensions, &extension.ServerNameOffer{ServerName: serverName})
 	}
 
 	if len(cfg.SupportedProtocols) > 0 {
